@@ -1323,7 +1323,11 @@ impl<'a> GeneratorState<'a> {
                 self.generate_strobe_statement(s, code.pos)?;
             }
             Statement::Store(e) => {
+                // What is stored is the accumulator as the previous statement left it:
+                // evaluating the operand (a computed subscript) must not destroy it
+                self.acc_in_use = true;
                 let param = self.generate_expr(e, code.pos, false, false)?;
+                self.acc_in_use = false;
                 self.generate_load_store_statement(&param, code.pos, false)?;
             }
             Statement::Load(e) => {
